@@ -508,6 +508,46 @@ def check_C03(ctx):
                     res.finding(f"def={nm};field={k};class=omitted-not-zero", f"omitted attribute {k} = {v!r}", dict(op=l[:3000]))
         if len(samples) < 3:
             samples.append(l[:140])
+    # (d) "omitted attributes hold zero" for every history: the objects a message hands out for its omitted attributes
+    #     (lists for the A types) are the caller's to edit — a later construction must still start from zeros
+    for ent in ctx.reach:
+        if not kw_constructible(ent) or has_var_group(ent["defn"]):
+            continue
+        def has_array(d):
+            for t in d.values():
+                if isinstance(t, str) and t[:1] == "A":
+                    return True
+                if isinstance(t, tuple) and isinstance(t[1], dict) and has_array(t[1]):
+                    return True
+            return False
+        if not has_array(ent["defn"]):
+            continue
+        base = defs.VARIANT_PINS.get((ent["mode"], ent["name"]), (ent["name"], None))
+        try:
+            kws = dict(base[1] or {})
+            m1 = UBXMessage(ent["cls"], ent["id"], ent["mode"], **kws) if kws else None
+            if m1 is None:
+                # no keyword needed to select the definition: supply one harmless scalar so that the attribute walk runs
+                first = next((k for k, t in ent["defn"].items() if isinstance(t, str) and t[:1] in "UIE"), None)
+                if first is None:
+                    continue
+                kws = {first: 0}
+                m1 = UBXMessage(ent["cls"], ent["id"], ent["mode"], **kws)
+            before = m1.serialize()
+            edited = 0
+            for k, v in list(m1.__dict__.items()):
+                if k[0] != "_" and isinstance(v, list) and v:
+                    v[0] = 17
+                    v[-1] = 255
+                    edited += 1
+            m2 = UBXMessage(ent["cls"], ent["id"], ent["mode"], **kws)
+            res.count()
+            if edited and m2.serialize() != before:
+                res.finding(f"def={defs.MODENAME[ent['mode']]}:{ent['name']};class=omitted-not-zero-after-edit",
+                            "editing the list a message reports for an omitted array attribute changes what later constructions encode",
+                            dict(cls=ent["cls"].hex(), id=ent["id"].hex(), mode=ent["mode"], kwargs={k: repr(v) for k, v in kws.items()}))
+        except Exception:  # noqa  (constructions that are refused are other oracles' business)
+            continue
     return res.finish("distinct (kind, definition, bitfield view): kind ∈ {parse→construct round trip, random keyword subset}", samples)
 
 
